@@ -34,6 +34,9 @@ pub struct TcpScript {
     pub on_write: Option<Box<dyn FnMut(usize) + Send>>,
     pub read_timeouts_set: Vec<Option<Duration>>,
     pub zero_timeout_set: bool,
+    /// Order of the calls made on the stream: 'T' set_read_timeout (index into
+    /// `read_timeouts_set`), 'R' read, 'W' write.
+    pub call_log: Vec<(char, usize)>,
 }
 
 #[derive(Clone)]
@@ -51,6 +54,8 @@ impl TcpStream {
     }
     pub fn set_read_timeout(&self, t: Option<Duration>) -> io::Result<()> {
         let mut s = self.script.lock().unwrap();
+        let i = s.read_timeouts_set.len();
+        s.call_log.push(('T', i));
         s.read_timeouts_set.push(t);
         if t == Some(Duration::ZERO) {
             // std::net::TcpStream rejects a zero timeout.
@@ -64,6 +69,8 @@ impl TcpStream {
 impl Read for TcpStream {
     fn read(&mut self, buf: &mut [u8]) -> io::Result<usize> {
         let mut s = self.script.lock().unwrap();
+        let rc = s.read_calls;
+        s.call_log.push(('R', rc));
         s.read_calls += 1;
         if buf.is_empty() {
             return Ok(0);
@@ -93,6 +100,7 @@ impl Write for TcpStream {
         {
             let mut s = self.script.lock().unwrap();
             idx = s.write_calls;
+            s.call_log.push(('W', idx));
             s.write_calls += 1;
             hook = s.on_write.take();
         }
